@@ -77,7 +77,13 @@ func genC06(p *sim.Plan, r *sim.Rand, tier string) {
 		p.Stall.SitePct = []int{100, 50, 25}[r.Intn(3)]
 		p.Stall.RatePPM = []int{20000, 100000, 300000}[r.Intn(3)]
 		p.Stall.MaxNs = []int64{1000, 1_000_000, 20_000_000}[r.Intn(3)]
-		if phase == "joining" && r.Bool(0.6) {
+		if c := p.CfgS["cause1"]; phase == "joining" && (c == "cli_disconnect" || c == "mgr_close") {
+			// the client's own call against the arrival of its CONNECT reply
+			p.Stall.Focus = []string{"client_socket.go", "client_manager.go", "ordered_runner.go"}
+			p.Stall.SitePct = 100
+			p.Stall.RatePPM = []int{100000, 300000}[r.Intn(2)]
+			p.Stall.MaxNs = []int64{100_000, 2_000_000, 20_000_000}[r.Intn(3)]
+		} else if phase == "joining" && r.Bool(0.6) {
 			// the handler's Join calls against the close: both live in server_socket.go
 			p.Stall.Focus = []string{"server_socket.go"}
 			p.Stall.SitePct = 100
@@ -105,8 +111,12 @@ func genC06(p *sim.Plan, r *sim.Rand, tier string) {
 			p.Set("cause_at", r.I64n(2000)) // right behind the Connect call
 		}
 	case "joining":
-		// reactive: the cause fires when the victim's connection handler starts (it joins rooms)
+		// reactive: the cause fires when the victim's connection handler starts (it joins rooms) -
+		// for the client's own calls, about one network latency later: when the CONNECT reply arrives
 		p.Set("cause_at", 0)
+		if c := p.CfgS["cause1"]; c == "cli_disconnect" || c == "mgr_close" {
+			p.Set("cause_delay", p.C("lat_us")*1000*int64(r.Range(5, 16))/10+r.I64n(100_000))
+		}
 	}
 	p.Set("dir", int64(r.Intn(3)))
 	// a black-holed established connection with data in flight is eventually failed by the kernel
@@ -321,6 +331,7 @@ func runC06(e *sim.Env) {
 		case <-joinGate:
 		case <-time.After(20 * time.Second):
 		}
+		time.Sleep(time.Duration(p.C("cause_delay")))
 		causeAt = e.Now()
 	} else {
 		e.SleepUntil(causeAt)
